@@ -23,8 +23,8 @@ SPEC = {
     "pid": "C09",
     "coq_targets": ["Props/C09.vo", "Extract/ExC09.vo"],
     "bin": "c09",
-    "sizes": {"quick": 40000, "thorough": 900000},
-    "search_n": 300000,
+    "sizes": {"quick": 40000, "thorough": 300000},
+    "search_n": 100000,
     "rule": ("fixed boundary stream (counts and lengths 65534..65537 for values, statements, ids, metadata ids, "
              "strings, map entries, event types; statement/token lengths 0,1,65535,65536,65537; batch count "
              "mismatches; x {none,LZ4,Snappy}) + all 64 subsets of the optional QUERY/EXECUTE parts x 6 (quick) / "
